@@ -29,6 +29,8 @@ const rule = "schedules = random walks over the model's enabled steps (enqueue /
 	"plugin level (real StrategyBasedQueuePlugin): bursts of k concurrent first requests per fresh remedy key behind a start barrier " +
 	"(queues created per key, passed, waiting, refused), sequential multi-key scenarios, and reload scenarios (same remedy name with a " +
 	"raised/lowered quota or another window size after its queue was used, same-named remedies with different strategies interleaved; one queue per full QueueKey); " +
+	"policies-file level: remedies declared globally / per endpoint with colliding names, written to a YAML file, read and validated by the real reader, then traffic through the plugin; " +
+	"production clock: strict monotonicity of consecutive readings + release order of back-to-back bursts on the real clock; " +
 	"non-trivial = at least one request was queued and at least one roll-over ran; distinct by (ops, answers)"
 
 type rq struct {
@@ -306,7 +308,8 @@ func (w *world) shutdown() {
 }
 
 func exec(c proto.Case, o *proto.Out) []string {
-	if len(c.Ops) > 0 && strings.HasPrefix(c.Ops[0], "pcfg") {
+	if len(c.Ops) > 0 && (strings.HasPrefix(c.Ops[0], "pcfg") || strings.HasPrefix(c.Ops[0], "fcfg") ||
+		strings.HasPrefix(c.Ops[0], "rcfg")) {
 		return execPlugin(c, o)
 	}
 	outs := make([]string, len(c.Ops))
